@@ -93,6 +93,9 @@ class LLCase(object):
     def __init__(self, rng, n_out=None, arrangement=None, allow_fix=True,
                  em_classes=None, allow_empty=True):
         self.n_out = int(n_out or rng.integers(1, 4))
+        if n_out is None and rng.random() < 0.06:
+            # (more outputs than any example uses)
+            self.n_out = int(rng.integers(4, 7))
         arrs = ARRANGEMENTS if allow_empty else ARRANGEMENTS[:-1]
         self.arrangement = arrangement or arrs[int(rng.integers(len(arrs)))]
         self.em_names = [
